@@ -470,10 +470,17 @@ func RunC05(d *Driver) *Report {
 							r.Violation(Case{Stream: "evy-run:" + e.rule, Input: e.src, Real: fmt.Sprintf("%s: exit=%d stdout=%q stderr=%q", []string{"stdin", "txtar member", "with --svg-out"}[k], p.Exit, trunc(p.Stdout, 100), trunc(p.Stderr, 200)), Spec: "non-zero exit status, nothing on stdout, the errors on stderr"})
 						}
 					}
-					if b, err := os.ReadFile(out); err == nil && strings.Contains(string(b), "<circle") {
-						r.Violation(Case{Stream: "evy-run:" + e.rule, Input: e.src, Real: "the SVG output file contains drawn shapes", Spec: "nothing of a rejected program is drawn"})
+					if b, err := os.ReadFile(out); err == nil {
+						r.Violation(Case{Stream: "evy-run:" + e.rule, Input: e.src, Real: "an SVG output file was written: " + trunc(string(b), 120), Spec: "a rejected program has no output and no drawing: evy run --svg-out FILE writes no file"})
 					}
 					os.Remove(out)
+					// the drawing on stdout
+					for k, args := range [][]string{{"run", "--skip-sleep", "--svg-out", "-", path}, {"run", "--skip-sleep", "--svg-out", "-", "--txtar", "p.evy", ar}, {"run", "--skip-sleep", "--svg-out", "-", "-"}} {
+						p := runProc(20*time.Second, e.src, bin, args...)
+						if p.Exit == 0 || p.Stdout != "" || strings.TrimSpace(p.Stderr) == "" {
+							r.Violation(Case{Stream: "evy-run:" + e.rule, Input: e.src, Real: fmt.Sprintf("--svg-out - (%s): exit=%d stdout=%q stderr=%q", []string{"file", "txtar member", "stdin"}[k], p.Exit, trunc(p.Stdout, 100), trunc(p.Stderr, 200)), Spec: "non-zero exit status, nothing on stdout, the errors on stderr"})
+						}
+					}
 				}
 			}
 		}
